@@ -36,22 +36,22 @@ def cm_insert_coin_count():
 
 # ---- tip911-stakeset
 def ss_add_stake():
-    return dict(ensures=[C("exact", "final(self)@ == old(self)@.insert(txhash, stake)", "C13")])
+    return dict(ensures=[C("exact", "final(self)@ == old(self)@.insert(txhash, stake)", "C13", "C08")])
 
 def ss_get_stake():
-    return dict(ensures=[C("exact", "res == (if self@.contains_key(txhash) { Some(self@[txhash]) } else { None::<StakeDoc> })", "C13")])
+    return dict(ensures=[C("exact", "res == (if self@.contains_key(txhash) { Some(self@[txhash]) } else { None::<StakeDoc> })", "C13", "C08")])
 
 def ss_votes():
     return dict(requires=[C("fits", "spec_staked_total(self@) <= u128::MAX", note="C09 envelope: total staked SYM fits in u128 (supply <= 2^127)")],
-                ensures=[C("sum", "res as int == spec_votes(self@, epoch, Some(key))", "C13", "C14", "C03")])
+                ensures=[C("sum", "res as int == spec_votes(self@, epoch, Some(key))", "C13", "C14", "C03", "C08")])
 
 def ss_total_votes():
     return dict(requires=[C("fits", "spec_staked_total(self@) <= u128::MAX")],
-                ensures=[C("sum", "res as int == spec_votes(self@, epoch, None)", "C13", "C14", "C03")])
+                ensures=[C("sum", "res as int == spec_votes(self@, epoch, None)", "C13", "C14", "C03", "C08")])
 
 def ss_unlock_old():
-    return dict(ensures=[C("keeps", "forall|k: TxHash| #[trigger] final(self)@.contains_key(k) <==> (old(self)@.contains_key(k) && old(self)@[k].e_post_end >= epoch)", "C13"),
-                         C("same", "forall|k: TxHash| final(self)@.contains_key(k) ==> #[trigger] final(self)@[k] == old(self)@[k]", "C13")])
+    return dict(ensures=[C("keeps", "forall|k: TxHash| #[trigger] final(self)@.contains_key(k) <==> (old(self)@.contains_key(k) && old(self)@[k].e_post_end >= epoch)", "C13", "C08"),
+                         C("same", "forall|k: TxHash| final(self)@.contains_key(k) ==> #[trigger] final(self)@[k] == old(self)@[k]", "C13", "C08")])
 
 # ---- state.rs
 def st_header():
@@ -76,7 +76,7 @@ def ap_handle_faucet():
             C("wf", "final(state).coins.wf() && (spec_tip906(*old(state)) ==> counts_ok(final(state).coins@))", "C20"),
             C("frame", "same_but_coins(*final(state), *old(state))", "C19", "C05", "C17"),
             C("not_faucet", "tx.kind != TxKind::Faucet ==> res is Ok && final(state).coins@ == old(state).coins@", "C19"),
-            C("mainnet", "tx.kind == TxKind::Faucet && old(state).network == NetID::Mainnet && !is_grandfathered(spec_txhash(*tx)) ==> res is Err && res->Err_0 is MalformedTx", "C19"),
+            C("mainnet", "tx.kind == TxKind::Faucet && old(state).network == NetID::Mainnet && !is_grandfathered(spec_txhash(*tx)) ==> res is Err && res->Err_0 is MalformedTx", "C19", "C01"),
             C("duplicate", """tx.kind == TxKind::Faucet && !(old(state).network == NetID::Mainnet && !is_grandfathered(spec_txhash(*tx)))
                    && old(state).coins@.coins.contains_key(spec_marker(spec_txhash(*tx))) ==> res is Err && res->Err_0 is DuplicateTx""", "C19"),
             C("err_noop", "res is Err ==> final(state).coins@ == old(state).coins@", "C19", "C02"),
@@ -119,7 +119,7 @@ def ap_validate_tx_scripts():
     ENV = "CovenantEnv { parent_coinid: *coin_id, parent_cdh: *coin_data, spender_index: spend_idx as u8, last_header: last_header }"
     CH = "coin_data.coin_data.covhash"
     return dict(ensures=[
-        C("iff", f"res is Ok <==> (good_scripts@.contains({CH}) || script_approves(scripts@, {CH}, *tx, {ENV}))", "C04"),
+        C("iff", f"res is Ok <==> (good_scripts@.contains({CH}) || script_approves(scripts@, {CH}, *tx, {ENV}))", "C04", "C19", "C02"),
         C("missing", f"!good_scripts@.contains({CH}) && !scripts@.contains_key({CH}) ==> res is Err && res->Err_0 is NonexistentScript", "C04"),
         C("undecodable", f"!good_scripts@.contains({CH}) && scripts@.contains_key({CH}) && spec_cov_decode(scripts@[{CH}]@) is None ==> res is Err && res->Err_0 is MalformedTx", "C04"),
         C("err_kinds", "res is Err ==> res->Err_0 is NonexistentScript || res->Err_0 is MalformedTx || res->Err_0 is ViolatesScript", "C04", char=True),
@@ -141,9 +141,9 @@ def ap_check_tx_validity():
             C("distinct_cov", "forall|a: int, b: int| 0 <= a < b < tx.inputs@.len() && relevant_coins@.contains_key(tx.inputs@[a]) && relevant_coins@.contains_key(tx.inputs@[b]) ==> relevant_coins@[tx.inputs@[a]].coin_data.covhash != relevant_coins@[tx.inputs@[b]].coin_data.covhash", envelope_of="F-C04-cache"),
         ],
         ensures=[
-            C("exist", "res is Ok ==> forall|i: int| 0 <= i < tx.inputs@.len() ==> relevant_coins@.contains_key(#[trigger] tx.inputs@[i])", "C02", "C04"),
+            C("exist", "res is Ok ==> forall|i: int| 0 <= i < tx.inputs@.len() ==> relevant_coins@.contains_key(#[trigger] tx.inputs@[i])", "C02", "C04", "C19"),
             C("unlocked", "res is Ok && !lock_legacy(this.network, this.height) ==> forall|i: int| 0 <= i < tx.inputs@.len() ==> !new_stakes@.contains_key((#[trigger] tx.inputs@[i]).txhash) && !this.stakes@.contains_key(tx.inputs@[i].txhash)", "C13", "C02"),
-            C("approved", "res is Ok ==> forall|i: int| 0 <= i < tx.inputs@.len() ==> script_approves(spec_covenants_map(*tx), relevant_coins@[tx.inputs@[i]].coin_data.covhash, *tx, #[trigger] env_of(*tx, relevant_coins@, i, spec_last_header(*this)))", "C04", "C02"),
+            C("approved", "res is Ok ==> forall|i: int| 0 <= i < tx.inputs@.len() ==> script_approves(spec_covenants_map(*tx), relevant_coins@[tx.inputs@[i]].coin_data.covhash, *tx, #[trigger] env_of(*tx, relevant_coins@, i, spec_last_header(*this)))", "C04", "C02", "C19"),
             C("balanced", "res is Ok ==> balanced(tx.kind, in_sums(tx.inputs@, relevant_coins@, tx.inputs@.len() as int), spec_total_outputs(*tx))", "C01", "C02"),
             C("errkind", "res is Err ==> !(res->Err_0 is WrongHeader)", "C06", char=True),
             C("locked_err", "(exists|i: int| 0 <= i < tx.inputs@.len() && (new_stakes@.contains_key((#[trigger] tx.inputs@[i]).txhash) || this.stakes@.contains_key(tx.inputs@[i].txhash))) && !lock_legacy(this.network, this.height) ==> res is Err", "C13"),
@@ -189,7 +189,7 @@ def st_txroot():
     return dict(requires=[C("keyed", "txs_keyed(self.transactions@)", note="state invariant (part of state_inv): the transaction set is keyed by the transactions' own hashes")],
                 ensures=[C("root", "res == spec_root_txs(self.transactions@, spec_tip908(*self))", "C07")])
 def ss_pre_tip911():
-    return dict(ensures=[C("root", "HashVal(novasmt::root_of(res@)) == spec_root_stakes(self@)", "C07", "C13")])
+    return dict(ensures=[C("root", "HashVal(novasmt::root_of(res@)) == spec_root_stakes(self@)", "C07", "C13", "C08")])
 def st_header_full():
     return dict(requires=[C("chain", "chain_ok(self.0) && txs_keyed(self.0.transactions@)")], ensures=[C("is", "res == spec_header(self.0)", "C07", "C06")])
 def st_tip906_transition(proj=False):
@@ -327,25 +327,25 @@ def ap_create_next_state():
 def ap_load_relevant_coins():
     return dict(
         requires=[C("wf", "this.coins.wf()")],
-        ensures=[C("rel", "res is Ok ==> rel_of(*this, txx@, res->Ok_0@)", "C02", "C01"),
+        ensures=[C("rel", "res is Ok ==> rel_of(*this, txx@, res->Ok_0@)", "C02", "C01", "C19"),
                  C("wellformed", "res is Ok ==> forall|q: int| 0 <= q < txx@.len() ==> spec_well_formed(#[trigger] txx@[q]) && outputs_fit(txx@[q])", "C02", "C09"),
                  C("nodup", "res is Ok ==> inputs_distinct(txx@)", "C02"),
                  C("err", "res is Err ==> res->Err_0 is MalformedTx || res->Err_0 is NonexistentCoin", "C02", char=True)])
 
 def mm_extract_pool_keys():
-    return dict(ensures=[C("keys", "forall|k: PoolKey| #[trigger] res@.contains(k) <==> mentions(old(transactions)@, k)", "C15", "C16", "C03"),
-                         C("once", "res@.no_duplicates()", "C15", "C16", "C03", note="each pool named by the block's requests is settled exactly once"),
+    return dict(ensures=[C("keys", "forall|k: PoolKey| #[trigger] res@.contains(k) <==> mentions(old(transactions)@, k)", "C15", "C16", "C03", "C01"),
+                         C("once", "res@.no_duplicates()", "C15", "C16", "C03", "C01", note="each pool named by the block's requests is settled exactly once"),
                          C("sorted", "pk_sorted(res@)", "C03"),
                          C("frame", "final(transactions)@ == old(transactions)@", "C15")])
 
 def mm_transactions_for_pool():
-    return dict(ensures=[C("filter", "res@ == transactions@.filter(for_pool(*pool_key))", "C15")])
+    return dict(ensures=[C("filter", "res@ == transactions@.filter(for_pool(*pool_key))", "C15", "C16", "C01")])
 
 def mm_process_swaps():
     d = mm_phase("swaps")
     d["ensures"] = d["ensures"] + [
         C("exact", """exists|reqs: Seq<Transaction>| #[trigger] selected(state.transactions@, reqs, swap_pred(state)) && swap_reqs_ok(state.pools@, state.coins@.coins, reqs)
-               && swaps_done(state.pools@, state.coins@.coins, state.height, reqs, mentioned_set(reqs), res.pools@, res.coins@.coins)""", "C15", "C01", "C16", "C03",
+               && swaps_done(state.pools@, state.coins@.coins, state.height, reqs, mentioned_set(reqs), res.pools@, res.coins@.coins)""", "C15", "C01", "C16", "C03", "C19",
           note="every pool named by a genuine swap request is settled exactly once, at one price for both directions; nothing else moves"),
         C("mono", "liqs_mono(state.pools@, res.pools@) && ids_sub(state.coins@.coins, res.coins@.coins)", "C16")]
     return d
@@ -383,7 +383,7 @@ def mm_process_deposits():
     d["requires"] = d["requires"] + [C("fits", "deposit_weights_fit(state.transactions@)", note="C09 envelope: see deposit_weights_fit")]
     d["ensures"] = d["ensures"] + [
         C("exact", """exists|reqs: Seq<Transaction>, mint: spec_fn(PoolKey) -> int| #[trigger] selected(state.transactions@, reqs, deposit_pred(state)) && dep_reqs_ok(state.coins@.coins, reqs)
-               && #[trigger] deps_done(state.pools@, state.coins@.coins, state.height, deposit_legacy(state.network, state.height), reqs, mentioned_set(reqs), mint, res.pools@, res.coins@.coins)""", "C15", "C01", "C16", "C03",
+               && #[trigger] deps_done(state.pools@, state.coins@.coins, state.height, deposit_legacy(state.network, state.height), reqs, mentioned_set(reqs), mint, res.pools@, res.coins@.coins)""", "C15", "C01", "C16", "C03", "C19",
           note="every pool named by a genuine deposit request is settled exactly once; liquidity handed out never exceeds what the pool records"),
         C("mono", "liqs_mono(state.pools@, res.pools@) && ids_sub(state.coins@.coins, res.coins@.coins)", "C16")]
     return d
@@ -393,7 +393,7 @@ def mm_process_withdrawals():
     d["requires"] = d["requires"] + [C("env", "wd_env(state.transactions@, state.pools@, state.coins@.coins, spec_tip(state.network, state.height, 180000))", note="C16 backing invariant as an envelope: see wd_env")]
     d["ensures"] = d["ensures"] + [
         C("exact", """exists|reqs: Seq<Transaction>, wl: spec_fn(PoolKey) -> int, wr: spec_fn(PoolKey) -> int| #[trigger] selected(state.transactions@, reqs, withdraw_pred(state)) && wd_reqs_ok(state.pools@, state.coins@.coins, reqs)
-               && #[trigger] wds_done(state.pools@, state.coins@.coins, state.height, reqs, mentioned_set(reqs), wl, wr, res.pools@, res.coins@.coins)""", "C15", "C01", "C16", "C03",
+               && #[trigger] wds_done(state.pools@, state.coins@.coins, state.height, reqs, mentioned_set(reqs), wl, wr, res.pools@, res.coins@.coins)""", "C15", "C01", "C16", "C03", "C19",
           note="every pool named by a genuine withdrawal request is settled exactly once: exactly the redeemed liquidity is retired, payouts leave the reserves and are split pro rata"),
         C("ids", "ids_new(state.coins@.coins, res.coins@.coins)", "C20", "C02", note="withdrawal settlement introduces no coin id other than (hash of a request, 1)")]
     return d
@@ -416,4 +416,4 @@ def st_tip908_transactions():
                 ensures=[C("dense", "HashVal(res.root()) == spec_dense_txs(self.transactions@)", "C07", "C03", note="the post-TIP-908 root commits, per transaction, to its signature-free hash and to the hash of its whole encoding; it does not depend on the order in which the set is visited")])
 
 def ss_new():
-    return dict(ensures=[C("from", "res@ == map_of_pairs(stakes@)", "C13")])
+    return dict(ensures=[C("from", "res@ == map_of_pairs(stakes@)", "C13", "C08")])
